@@ -237,12 +237,17 @@ theorem foldl_dqStep_concat (j : Str) (es : List Expansion) (h : ∀ e ∈ es, e
     · rw [List.foldl_cons, hstep, hG]
     · rw [hGs, fieldStr_append, hs]; simp
 
+theorem sawEmptyList_concat (es : List Expansion) (h : ∀ e ∈ es, e.concatenate = true) : sawEmptyList es = false := by
+  simp only [sawEmptyList, List.any_eq_false]
+  intro e he
+  simp [h e he]
+
 theorem expandDQ_concat (j : Str) (es : List Expansion) (h : ∀ e ∈ es, e.concatenate = true) :
     ∃ G : Field, (expandDQ j es).fields = [G] ∧ AllUnsplit G ∧ G ≠ [] ∧
       fieldStr G = es.flatMap (joinedStr j) := by
   cases es with
   | nil =>
-    refine ⟨[.unsplit []], by simp [expandDQ], ?_, by simp, by simp [fieldStr, Piece.str]⟩
+    refine ⟨[.unsplit []], by simp [expandDQ, dropNullAt, sawEmptyList], ?_, by simp, by simp [fieldStr, Piece.str]⟩
     intro p hp; simp at hp; subst hp; rfl
   | cons e r =>
     obtain ⟨hu, hn, hs⟩ := dqPiece_spec j e
@@ -251,8 +256,15 @@ theorem expandDQ_concat (j : Str) (es : List Expansion) (h : ∀ e ∈ es, e.con
     obtain ⟨G, hG, hGu, hGn, hGs⟩ := foldl_dqStep_concat j r (fun e' he' => h e' (by simp [he']))
       (dqPiece j e) hu hn
     refine ⟨G, ?_, hGu, hGn, ?_⟩
-    · simp [expandDQ, h0, hG]
+    · simp [expandDQ, dropNullAt, sawEmptyList_concat _ h, h0, hG]
     · rw [hGs, hs]; simp
+
+theorem dropNullAt_not_saw (es : List Expansion) (fields : List Field) (h : sawEmptyList es = false) :
+    dropNullAt es fields = fields := by simp [dropNullAt, h]
+
+theorem dropNullAt_array (vals : List Str) :
+    dropNullAt [arrayExp vals false] (vals.map fun v => [Piece.unsplit v]) = vals.map fun v => [Piece.unsplit v] := by
+  cases vals <;> simp [dropNullAt, sawEmptyList, arrayExp]
 
 theorem coalesce_single (e : Expansion) : (coalesce [e]).fields = e.fields := by
   simp [coalesce, glue]
